@@ -6,7 +6,12 @@ patch=$(realpath "$1"); shift
 V=$(mktemp -d /tmp/verif-variant-XXXXXX)
 trap 'rm -rf "$V"' EXIT
 rsync -a --exclude target --exclude .git /repo/ "$V/repo/"
-if ! (cd "$V/repo" && patch -p1 -s --no-backup-if-mismatch < "$patch"); then echo "PATCH-DOES-NOT-APPLY $patch"; exit 3; fi
+if ! (cd "$V/repo" && patch -p1 -s --no-backup-if-mismatch < "$patch" >/dev/null 2>&1); then
+  # seeds were written against the pinned base commit; fall back to it when a later fix: commit touches the same lines
+  rm -rf "$V/repo"; mkdir -p "$V/repo"; git -C /repo archive 6219822 | tar -x -C "$V/repo"
+  echo "BASE-FALLBACK (patch does not apply to the current tree; using base commit 6219822 + patch)"
+  if ! (cd "$V/repo" && patch -p1 -s --no-backup-if-mismatch < "$patch"); then echo "PATCH-DOES-NOT-APPLY $patch"; exit 3; fi
+fi
 mkdir -p "$V/ev"
 rc=0
 for id in "$@"; do
